@@ -10,6 +10,8 @@ mod metah;
 mod parseq;
 #[cfg(feature = "parallel")]
 mod poolh;
+#[cfg(feature = "parallel")]
+mod cellsh;
 mod rng;
 mod worldh;
 
@@ -62,6 +64,8 @@ fn main() {
         "async" => async_cmd(&args[2..]),
         #[cfg(feature = "parallel")]
         "pool" => pool_cmd(&args[2..]),
+        #[cfg(feature = "parallel")]
+        "cells" => cells_cmd(&args[2..]),
         _ => {
             eprintln!("usage: shred_verif <plan|...> [options]");
             std::process::exit(2);
@@ -481,5 +485,45 @@ fn pool_cmd(args: &[String]) {
         k += 1;
         if k % sn != si { continue; }
         emit("user", w, w as usize - 1, 1, 250, &mut out);
+    }
+}
+
+/// cells --count N --seed S --shard i/n   |   cells --cases FILE
+#[cfg(feature = "parallel")]
+fn cells_cmd(args: &[String]) {
+    let env = cellsh::Env::new();
+    let mut out = std::io::BufWriter::new(std::io::stdout());
+    let watch = Watch::new();
+    let mut emit = |ops: &[cellsh::BOp], out: &mut dyn Write| {
+        let case = format!("cells :: {}", cellsh::text(ops));
+        out.flush().unwrap();
+        watch.begin(case.clone(), CASE_BUDGET_MS);
+        let obs = cellsh::observe(ops, &env);
+        watch.end();
+        writeln!(out, "{}\t{}", case, obs).unwrap();
+    };
+    if let Some(f) = arg(args, "--cases") {
+        let rd: Box<dyn BufRead> = Box::new(std::io::BufReader::new(std::fs::File::open(f).expect("cases file")));
+        for line in rd.lines() {
+            let line = line.unwrap();
+            let case = line.split('\t').next().unwrap().trim();
+            if case.is_empty() || case.starts_with('#') { continue; }
+            let (_h, t) = case.split_once(" :: ").unwrap_or((case, ""));
+            emit(&cellsh::parse(t), &mut out);
+        }
+        return;
+    }
+    let count: u64 = arg(args, "--count").map(|s| s.parse().unwrap()).unwrap_or(100);
+    let seed: u64 = arg(args, "--seed").map(|s| s.parse().unwrap()).unwrap_or(1);
+    let (si, _sn) = arg(args, "--shard").map(|s| { let (a, b) = s.split_once('/').unwrap(); (a.parse::<u64>().unwrap(), b.parse::<u64>().unwrap()) }).unwrap_or((0, 1));
+    let mut rng = Rng::new(seed.wrapping_mul(13_000_027).wrapping_add(si).wrapping_add(0xCE11));
+    // the situations of the repaired defect first
+    if si == 0 {
+        for t in ["P1 B{ B{ } }", "B{ B{ } } P2", "B{ P3 B{ B{ } } } P1", "B{ B{ B{ } } }", "P1 B{ P2 } B{ B{ P3 } }"] { emit(&cellsh::parse(t), &mut out); }
+    }
+    for _ in 0..count {
+        let mut r = rng.fork();
+        let ops = cellsh::gen_case(&mut r);
+        emit(&ops, &mut out);
     }
 }
